@@ -257,3 +257,58 @@ Print Assumptions C07_srt_to_stl_styled.
 Print Assumptions C07_vtt_to_stl_styled.
 Print Assumptions C07_ssa_to_stl_styled.
 Print Assumptions C07_ttml_to_stl_styled.
+
+(* ---- styled EBU STL SOURCES converted to WebVTT and TTML (Model/ConvStlVtt.v, ConvStlTtml.v; Proofs/ConvStlVttProofs.v,
+   ConvStlTtmlProofs.v).  The source is the cue list ReadFromSTL gives for a file (C05_read_rendered says which one): every
+   row is a list of runs with the italic / underline / boxing flags and, under the teletext standards, colour and double
+   height; the cue carries justification and vertical position.  conv_stl_vtt / conv_stl_ttml = what WriteToWebVTT /
+   WriteToTTML look at:
+     - WebVTT: times; the cue settings align:... line:...% the STL reader derived from justification code and vertical
+       position (ri_align, ri_line); per run the text, and of the teletext colours red / yellow / magenta / cyan a class tag
+       <c.NAME> (the writer's colour table has no name for black, green #008000, blue, white: lost); italic, underline,
+       boxing, double height are lost;
+     - TTML: times; Metadata.Language -> xml:lang (the code of the language table), Metadata.Title -> ttm:title; per run a
+       <span>, with tts:color="#rrggbb" for each of the eight teletext colours; everything else is lost (the frame rate is
+       not written).  The library's bytes go through encoding/xml's EscapeText: convert_stl_ttml_go; the GSI title is a raw
+       byte string, anything in it that is not XML-legal UTF-8 becomes U+FFFD (stlttml_legalb excludes it).
+   Statements: for every STL file the reader accepts whose cue list is representable in the destination
+   (stl_vtt_ok / stlttml_ok, decidable: at least one cue, times 0 .. MaxInt64, run texts a WebVTT cue line / a TTML span can
+   hold; for WebVTT also: no two adjacent runs of one written colour class; for TTML: every cue has a line - a cue without
+   lines reads back with one empty line), the conversion succeeds and the destination read back has the same cues in the
+   same order, times truncated to the millisecond, and per line the text of the runs PUT TOGETHER (stl_to_plain: run texts
+   concatenated).  The STL reader trims every run, so a blank the FILE has between two runs of a row (WriteToSTL puts one
+   there, C07_conversion_into_stl) is not in the cue list and not in the destination: with respect to the rows of the file
+   the text is equal ONCE WHITE SPACE BETWEEN RUNS IS DISREGARDED - "hello" + italic "world" in the file comes out as
+   "helloworld" (ex_stlvtt_file: computed on a written file, the bytes observed on the library).
+   Not covered: WebVTT with adjacent runs of the same colour class (written <c.red>a</c><c.red>b</c>; ex_stlvtt_same_readback
+   computes one such case, the text is preserved there too); negative times (programme start above a time code). *)
+From Astisub Require Import Model.ConvStlVtt Model.ConvStlTtml Proofs.ConvStlVttProofs Proofs.ConvStlTtmlProofs.
+From Astisub Require Proofs.TtmlDocSpec.
+Theorem C07_stl_to_vtt_styled : forall ign data d, read_stl ign data = Ok d -> stl_vtt_ok d ->
+  exists dst, convert_stl_vtt ign data = Ok dst /\ vtt_dec dst = Ok (ptrunc 1000000 (stl_to_plain d)).
+Proof. exact conversion_stl_vtt_file. Qed.
+Theorem C07_stl_to_ttml_styled : forall ign data d, read_stl ign data = Ok d -> stlttml_ok d -> stlttml_legalb d = true ->
+  exists dst, convert_stl_ttml_go ign data = Ok dst /\ ttml_dec dst = Ok (ptrunc 1000000 (stl_to_plain d)).
+Proof. exact conversion_stl_ttml_styled_go. Qed.
+(* the TTML destination read back as a document: title, mapped language, colours and run boundaries are there *)
+Theorem C07_stl_to_ttml_styled_doc : forall d : rdoc, stlttml_ok d ->
+  exists dst, write_ttml_bytes ttml_default_indent (conv_stl_ttml d) = Ok dst /\
+              read_ttml_bytes dst
+              = Ok (mkDoc (Some (mkMeta 0 (rd_title d) [] (TtmlDocSpec.written_lang (rd_lang d)))) [] []
+                          (map (fun it => mkItem (TtmlDocSpec.trunc_ms (ri_st it)) (TtmlDocSpec.trunc_ms (ri_en it)) None None no_attrs
+                                                 (map (map stlttml_run) (ri_lines it))) (rd_items d))).
+Proof. intros d Hd. apply conversion_stl_ttml_styled_doc. rewrite stlttml_repr_eq. exact Hd. Qed.
+(* a written file with "hello" and italic boxed "world" in a row, justification right, vertical position 18 (ex_stlvtt_file
+   has the WebVTT bytes, with  align:right line:73%  and "helloworld"): its cue list is in the domain, two runs then one *)
+Example C07_stl_to_vtt_styled_example :
+  match ex_stlvtt_src with
+  | Ok data => match read_stl false data with
+               | Ok d => stl_vtt_ok d /\ map (fun it => map (fun l => length l) (ri_lines it)) (rd_items d) = [[2%nat; 1%nat]]
+               | _ => False
+               end
+  | _ => False
+  end.
+Proof. vm_compute. split; reflexivity. Qed.
+Print Assumptions C07_stl_to_vtt_styled.
+Print Assumptions C07_stl_to_ttml_styled.
+Print Assumptions C07_stl_to_ttml_styled_doc.
